@@ -29,6 +29,32 @@ fn vouch_bits(x: u64) -> u64 {
     unsafe { std::mem::transmute::<raffle::Voucher, u64>(VOUCH_PARAMS.vouch(x)) }
 }
 
+/// Base times whose VOUCHER WORD is a special bit pattern (0, all ones, 1, 2^63, equal to the base
+/// time itself is not solvable in general): `vouch` is affine in the value with an odd
+/// multiplier, `vouch(x) = (x + offset) * m (mod 2^64)`, so `x = target * m^-1 - offset`.
+/// A reader that treats some voucher pattern as "not published yet / invalid" shows only there.
+fn special_bases() -> Vec<u64> {
+    let v0 = vouch_bits(0);
+    let m = vouch_bits(1).wrapping_sub(v0);
+    if m & 1 == 0 {
+        return vec![];
+    }
+    // Newton iteration for the inverse of an odd number modulo 2^64
+    let mut inv = m;
+    for _ in 0..6 {
+        inv = inv.wrapping_mul(2u64.wrapping_sub(m.wrapping_mul(inv)));
+    }
+    let offset = v0.wrapping_mul(inv);
+    let mut out = Vec::new();
+    for target in [0u64, u64::MAX, 1, 1 << 63] {
+        let x = target.wrapping_mul(inv).wrapping_sub(offset);
+        if vouch_bits(x) == target {
+            out.push(x);
+        }
+    }
+    out
+}
+
 fn voucher_of_bits(bits: u64) -> raffle::Voucher {
     unsafe { std::mem::transmute::<u64, raffle::Voucher>(bits) }
 }
@@ -49,6 +75,13 @@ fn parse_val(s: &str) -> Option<u64> {
     } else {
         s.parse().ok()
     }
+}
+
+/// Values of the base-time and sequence words are plain numbers; only the voucher words (locations
+/// v0 = 2, v1 = 4) are shown symbolically.  (A base time can coincide numerically with the voucher
+/// of another base time - e.g. 0 is the voucher of `special_bases()[0]`.)
+fn fmt_loc_val(l: usize, v: u64) -> String {
+    if l == 2 || l == 4 { fmt_val(v) } else { v.to_string() }
 }
 
 fn fmt_val(v: u64) -> String {
@@ -133,7 +166,7 @@ impl OpRec {
     fn fmt(&self) -> String {
         match self {
             OpRec::Load(l, o) => format!("ld.{}.{}", LOC_NAMES[*l], o.name()),
-            OpRec::Store(l, o, v) => format!("st.{}.{}={}", LOC_NAMES[*l], o.name(), fmt_val(*v)),
+            OpRec::Store(l, o, v) => format!("st.{}.{}={}", LOC_NAMES[*l], o.name(), fmt_loc_val(*l, *v)),
             OpRec::Lock => "lock".into(),
             OpRec::TryLock => "trylock".into(),
             OpRec::Unlock(p) => format!("unlock.{}", *p as u8),
@@ -189,7 +222,8 @@ fn parse_fed(s: &str) -> Option<Fed> {
 
 fn fmt_fed(f: Fed) -> String {
     match f {
-        Fed::Val(v) | Fed::Vch(v) => fmt_val(v),
+        Fed::Val(v) => v.to_string(),
+        Fed::Vch(v) => fmt_val(v),
         Fed::Lk(l) => l.name().into(),
         Fed::Unit => String::new(),
     }
@@ -288,7 +322,7 @@ enum Ret {
 
 fn fmt_ret(r: Ret) -> String {
     match r {
-        Ret::Snap(b, v) => format!("ret={},{}", fmt_val(b), fmt_val(v)),
+        Ret::Snap(b, v) => format!("ret={},{}", b, fmt_val(v)),
         Ret::Bool(b) => format!("ret={}", b),
         Ret::Unit => "ret".into(),
     }
@@ -703,8 +737,8 @@ impl Sim {
                     }
                     th.last_seq_read = Some(val);
                 }
-                desc = if sc { format!("{}={}", op.fmt(), fmt_val(val)) }
-                       else { format!("{}@{}[{}..{}]={}", op.fmt(), ts, lo, len - 1, fmt_val(val)) };
+                desc = if sc { format!("{}={}", op.fmt(), fmt_loc_val(*l, val)) }
+                       else { format!("{}@{}[{}..{}]={}", op.fmt(), ts, lo, len - 1, fmt_loc_val(*l, val)) };
             }
             OpRec::Store(l, o, val) => {
                 let ts = self.mem[*l].len();
@@ -1081,14 +1115,15 @@ fn enumerate_traces(obj: &Obj, call: Call, max_len: usize, wide: bool, out: &mut
 
 fn random_token(rng: &mut Rng, op: Option<&OpRec>) -> String {
     let seqs: [u64; 10] = [0, 1, 2, 3, 4, 7, 8, 1 << 32, (1 << 63) - 1, (1 << 63) - 2];
-    let bases: [u64; 8] = [0, 1, 5, 6, 7, 9, u64::MAX, 1 << 40];
+    let mut bases: Vec<u64> = vec![0, 1, 5, 6, 7, 9, u64::MAX, 1 << 40];
+    bases.extend(special_bases());
     match op {
         Some(OpRec::Load(SEQ, _)) => seqs[rng.below(seqs.len() as u64) as usize].to_string(),
         Some(OpRec::Load(1, _)) | Some(OpRec::Load(3, _)) => {
-            bases[rng.below(8) as usize].to_string()
+            bases[rng.below(bases.len() as u64) as usize].to_string()
         }
         Some(OpRec::Load(_, _)) => {
-            if rng.chance(1, 8) { rng.below(1 << 20).to_string() } else { format!("v{}", bases[rng.below(8) as usize]) }
+            if rng.chance(1, 8) { (2 + rng.below(1 << 20)).to_string() } else { format!("v{}", bases[rng.below(bases.len() as u64) as usize]) }
         }
         Some(OpRec::Lock) => (*rng.pick(&["ok", "ok", "poisoned", "wouldblock"])).to_string(),
         Some(OpRec::TryLock) => (*rng.pick(&["ok", "ok", "poisoned", "wouldblock"])).to_string(),
@@ -1098,11 +1133,13 @@ fn random_token(rng: &mut Rng, op: Option<&OpRec>) -> String {
 
 /// Occasionally an ill-typed token (both sides must answer `bad-script`).
 fn wild_token(rng: &mut Rng) -> String {
-    (*rng.pick(&["0", "ok", "v5", "wouldblock"])).to_string()
+    (*rng.pick(&["3", "ok", "v5", "wouldblock"])).to_string() // never 0 / 1: the numeric value of a special voucher word
 }
 
 fn random_call(rng: &mut Rng, allow_unlocked: bool) -> Call {
-    let b = *rng.pick(&[0u64, 1, 5, 6, 7, 9, 1 << 40, u64::MAX]);
+    let mut bs: Vec<u64> = vec![0u64, 1, 5, 6, 7, 9, 1 << 40, u64::MAX];
+    bs.extend(special_bases());
+    let b = *rng.pick(&bs);
     let v = if rng.chance(1, 6) { vouch_bits(b.wrapping_add(1)) } else { vouch_bits(b) };
     parse_val(&format!("v{}", b));
     parse_val(&format!("v{}", b.wrapping_add(1)));
@@ -1159,6 +1196,13 @@ fn random_execution(obj: &Obj, rng: &mut Rng, thorough: bool) -> Vec<String> {
     let mut viol = Vec::new();
     // increasing base times most of the time, so that updates are accepted
     let mut clock = 1u64;
+    if rng.chance(1, 5) {
+        // walk the base times through one whose voucher word is a special bit pattern
+        let sp = special_bases();
+        if !sp.is_empty() {
+            clock = (*rng.pick(&sp)).saturating_sub(rng.below(3)).max(1);
+        }
+    }
     for _ in 0..nsteps {
         let t = rng.below(nthreads as u64) as usize;
         sim.thread(t);
